@@ -4,7 +4,7 @@ import os
 import re
 from common import Report, VERIF
 from facts import place_local, op_local
-from rules import lossy
+from rules import lossy, codec
 
 EXPLANATION = (
     "Static rule R-LOSSY over the MIR of every function reachable (call graph incl. dyn dispatch to all local impls) "
@@ -129,6 +129,58 @@ def run(db, tier):
     rep.floor("write-primitive call sites", n_writes, 150)
     rep.extra["narrowing_casts_inspected"] = n_casts
     rep.extra["write_primitive_calls"] = n_writes
+    # ---------------- R-CODEC: reader/writer agreement per instruction-header field
+    rep.rule("R-CODEC", "reader and writer of an instruction format use the same on-disk type for each header field (bit-preserving sign changes excepted)")
+    rep.rule("R-HEADER", "the bytes written before the argument blob add up to instr_header_size()")
+    fmts = codec.instr_formats(db)
+    rep.floor("InstrFormat impls", len(fmts), 9)
+    n_fields = 0
+    for name, r, w, h in fmts:
+        rep.fn(r)
+        rep.fn(w)
+        rf = codec.reader_fields(db, r)
+        wf = codec.writer_fields(db, w)
+        for fld in sorted(set(rf) | set(wf)):
+            key = "%s|%s" % (name, fld)
+            loc = "%s / %s" % (r.loc, w.loc)
+            if fld not in rf or fld not in wf:
+                if fld in wf and fld not in rf:
+                    rep.bad("R-CODEC", key, loc, "field %s is written (write_%s) but no read primitive feeds it back into RawInstr" % (fld, "/".join(wf[fld])))
+                else:
+                    # read but never written: acceptable only if the writer emits a constant there (e.g. STD06 argsize 12)
+                    rep.ok("R-CODEC", key, loc, "read with read_%s; the writer emits a constant / nothing for it" % "/".join(p for p, _ in rf[fld]))
+                continue
+            n_fields += 1
+            problems = [codec.compare(p, c, x) for p, c in rf[fld] for x in wf[fld]]
+            problems = [p for p in problems if p]
+            rep.check(not problems, "R-CODEC", key, loc, "read_%s <-> write_%s" % ("/".join(p for p, _ in rf[fld]), "/".join(wf[fld])),
+                      "; ".join(problems))
+        # header size
+        if h is not None:
+            size = None
+            for b in h.blocks:
+                for st in b["s"]:
+                    if st["r"] == "use" and place_local(st["d"]) == 0 and isinstance(st["o"], dict) and "iv" in st["o"]:
+                        size = st["o"]["iv"]
+            total = 0
+            for bi, t in w.calls():
+                m = codec.WPRIM.match(t.get("f", ""))
+                if m:
+                    total += codec.BITS[m.group(1)] // 8
+                elif t.get("f") == "io::BinWrite::write_all" and len(t["a"]) > 1:
+                    l = op_local(t["a"][1])
+                    ty = w.local_ty(l) if l is not None else ""
+                    for b2 in w.blocks:       # an unsizing coercion `&[u8; N] as &[u8]`
+                        for st in b2["s"]:
+                            if st["r"] == "cast" and place_local(st["d"]) == l:
+                                ty = db.types[st["from"]]
+                    mm = re.match(r"^&\[u8; (\d+)\]$", ty)
+                    if mm:
+                        total += int(mm.group(1))
+            rep.check(size is not None and total == size, "R-HEADER", "%s|header-size" % name, w.loc,
+                      "writes %d header bytes == instr_header_size() %s" % (total, size),
+                      "write_instr emits %d bytes before the argument blob but instr_header_size() returns %s: offsets and sizes computed from it are wrong" % (total, size))
+    rep.floor("paired header fields", n_fields, 30)
     stale = sorted(set(table) - used_table)
     if stale:
         rep.note("audit-table entries not matched by any cast on this tree (stale, harmless): %s" % stale)
